@@ -26,6 +26,9 @@ type c12Sym struct {
 	Hole int
 	Desc string
 	K    int64
+	// From: the field of the receiver state this unknown was read from (Desc is then its path); it travels with
+	// the value through locals and helper parameters, so that a test of the value is a test of that field
+	From *types.Var
 }
 
 type c12Part struct {
